@@ -124,6 +124,7 @@ def run_case(case, timeout=20.0, keep_dir=False):
         lines = []
         for role, path in roles.items():
             lines.append("role %s %s" % (role, path))
+        lines += case.get("plan_prefix", [])
         lines += case.get("plan", [])
         with open(os.path.join(d, ".plan"), "w") as f:
             f.write("\n".join(lines) + "\n")
@@ -277,7 +278,7 @@ class ForkServer:
             for name in case.get("watch", []):
                 p = os.path.join(d, name)
                 inode_before[name] = os.stat(p).st_ino if os.path.exists(p) else None
-            lines = ["role %s %s" % (role, path) for role, path in case.get("roles", {}).items()] + list(plan)
+            lines = ["role %s %s" % (role, path) for role, path in case.get("roles", {}).items()] + list(case.get("plan_prefix", [])) + list(plan)
             with open(os.path.join(d, ".plan"), "w") as f:
                 f.write("\n".join(lines) + "\n")
             if case.get("stdin") is not None:
